@@ -4,6 +4,6 @@ CONSTANTS
   Seed = 1
   CoverStride = 2
   FullDepth3 = FALSE
-INVARIANTS Evaluable OuterLaw LatticeLaw
+INVARIANTS Evaluable OuterLaw LatticeLaw BoundaryLaw
 POSTCONDITION EmitCases
 CHECK_DEADLOCK FALSE
